@@ -29,7 +29,8 @@ def gen_world(r, nmod=None, ncls=None):
         for _ in range(r.randint(1, 3)):
             inst.append((w.fresh("i"), "public"))
         if r.random() < 0.6:
-            inst.append((w.fresh("pv"), "private"))
+            for _ in range(r.choice([1, 1, 2, 3])):
+                inst.append((w.fresh("pv"), "private"))
         if r.random() < 0.3:
             inst.append((w.fresh("pt"), "protected"))
         if r.random() < 0.25:
